@@ -259,3 +259,34 @@ pub fn read_page(page_pool: &PagePool, fd: &File, pn: u64) -> std::io::Result<Fa
     fd.read_exact_at(&mut page[..], pn * PAGE_SIZE as u64)?;
     Ok(page)
 }
+
+/// Fault injection for the out-of-tree verification replays (add-only, `verif-hooks` feature):
+/// report page writes to the file whose path ends with the configured suffix as failed (EIO).
+#[cfg(feature = "verif-hooks")]
+#[doc(hidden)]
+pub mod verif_faults {
+    use super::{IoCommand, IoKind};
+    use std::sync::Mutex;
+
+    static FAIL_WRITES_TO: Mutex<Option<String>> = Mutex::new(None);
+
+    /// `Some(suffix)`: fail page writes to files whose path ends with `suffix`; `None`: off.
+    pub fn fail_writes_to(suffix: Option<&str>) {
+        *FAIL_WRITES_TO.lock().unwrap() = suffix.map(|s| s.to_string());
+    }
+
+    pub(crate) fn apply(command: &IoCommand, result: std::io::Result<()>) -> std::io::Result<()> {
+        let fd = match command.kind {
+            IoKind::Read(..) => return result,
+            IoKind::Write(fd, ..) | IoKind::WriteArc(fd, ..) | IoKind::WriteRaw(fd, ..) => fd,
+        };
+        let guard = FAIL_WRITES_TO.lock().unwrap();
+        let Some(suffix) = guard.as_ref() else { return result };
+        match std::fs::read_link(format!("/proc/self/fd/{}", fd)) {
+            Ok(p) if p.to_string_lossy().ends_with(suffix.as_str()) => {
+                Err(std::io::Error::from_raw_os_error(libc::EIO))
+            }
+            _ => result,
+        }
+    }
+}
